@@ -159,7 +159,8 @@ def drive(binary, tier, d, only=None, total_filter=""):
         files.append(small)
     if only in (None, "total"):
         stats["total"] = go(["-mode", "total", "-out", os.path.join(d, "total"), "-shards", "3",
-                             "-workers", "16", "-deadline", "1500", "-fn", total_filter])
+                             "-workers", "16", "-deadline", "1500", "-fn", total_filter,
+                             "-seed", str(seed())])
         files += [f for f in sorted(glob.glob(os.path.join(d, "total.*.ndjson"))) if os.path.getsize(f)]
     return files, stats
 
@@ -350,6 +351,8 @@ def check(tier):
         if agg["cells"] != agg["allcells"]:
             rep.drift.append("sweep covered %d of the %d (phase, class) cells of the specification" % (
                 agg["cells"], agg["allcells"]))
+        for k, why in sorted(tot.get("unbuildable", {}).items()):
+            rep.drift.append("the sweep has no argument rule for %s (%s): not covered" % (k, why))
         # which functions break on the real code vs what the as-found model predicts
         broken = sorted(set(g["sig"]["fn"].replace("M.", "M.") for g in groups.values()
                             if g["sig"]["part"] == "algebra"))
@@ -360,7 +363,7 @@ def check(tier):
             sweep=dict(targets=tot["targets"], calls=tot["calls"], outcomes=tot["outcomes"],
                        worker_restarts=tot["restarts"], rechecked=tot.get("blocked_rechecked"),
                        recheck_changed=tot.get("blocked_unconfirmed"),
-                       skipped_targets=tot["skipped"], unobserved=tot.get("unobserved", [])[:40],
+                       skipped_targets=tot["skipped"], unbuildable=tot.get("unbuildable", {}), unobserved=tot.get("unobserved", [])[:40],
                        cells=agg["cells"], cells_spec=agg["allcells"]),
             conformance=dict(lines_matching_only_as_found_model=agg["onlyAsFound"],
                              lines_matching_only_repaired_model=agg["onlyFixed"]),
